@@ -922,6 +922,11 @@ where
             .collect();
     }
 
+    #[cfg(feature = "echo_verif")]
+    if let Some(script) = crate::verif_hooks::take_claim_script() {
+        return execute_work_queue_scripted(units, workers, &resolve_store, &script);
+    }
+
     let next_unit = AtomicUsize::new(0);
 
     std::thread::scope(|s| {
@@ -988,6 +993,61 @@ where
 ///
 /// When enforcement is inactive (`unsafe_graph` feature or release without
 /// `footprint_enforce_release`), executes directly without validation.
+/// Verification hook: deterministic emulation of the work queue under a
+/// scripted claim order (unit index -> worker). Units are handed out in index
+/// order exactly like the atomic counter does; a worker that has already
+/// returned (poisoned / missing store) claims nothing further, so its scripted
+/// units fall to the next live worker, and if no worker is live the remaining
+/// units are never executed.
+#[cfg(feature = "echo_verif")]
+fn execute_work_queue_scripted<'state, F>(
+    units: &[WorkUnit],
+    workers: usize,
+    resolve_store: &F,
+    script: &[usize],
+) -> Vec<WorkerResult>
+where
+    F: Fn(&WarpId) -> Option<&'state GraphStore> + Sync,
+{
+    let mut deltas: Vec<Option<TickDelta>> = (0..workers).map(|_| Some(TickDelta::new())).collect();
+    let mut finished: Vec<Option<WorkerResult>> = (0..workers).map(|_| None).collect();
+    'units: for (unit_idx, unit) in units.iter().enumerate() {
+        let preferred = script.get(unit_idx).copied().unwrap_or(0) % workers;
+        let Some(worker) = (0..workers)
+            .map(|k| (preferred + k) % workers)
+            .find(|w| finished[*w].is_none())
+        else {
+            break 'units;
+        };
+        let Some(store) = resolve_store(&unit.warp_id) else {
+            deltas[worker] = None;
+            finished[worker] = Some(WorkerResult::MissingStore(unit.warp_id));
+            continue 'units;
+        };
+        for (idx, item) in unit.items.iter().enumerate() {
+            let Some(delta) = deltas[worker].take() else {
+                continue 'units;
+            };
+            match execute_item_enforced(store, item, idx, unit, delta) {
+                Ok(next_delta) => deltas[worker] = Some(next_delta),
+                Err(poisoned) => {
+                    finished[worker] = Some(WorkerResult::Poisoned(poisoned));
+                    continue 'units;
+                }
+            }
+        }
+    }
+    finished
+        .into_iter()
+        .zip(deltas)
+        .map(|(done, delta)| match (done, delta) {
+            (Some(result), _) => result,
+            (None, Some(delta)) => WorkerResult::Success(delta),
+            (None, None) => WorkerResult::Success(TickDelta::new()),
+        })
+        .collect()
+}
+
 // Result is always Ok when enforcement is compiled out (unsafe_graph), but the
 // signature must stay Result for the enforcement path.
 #[allow(clippy::unnecessary_wraps)]
